@@ -671,6 +671,7 @@ class CaseRun:
             st["events"] += sched.events
             st["switches"] += sched.switches
             st["hot_points"] = st.get("hot_points", 0) + sched.hot_points
+            st["faults"]["lock-wait"] = st["faults"].get("lock-wait", 0) + sched.blocked_yields
             st["faults"]["preempt"] += sched.switches
             for k2, v2 in sched.switch_sites.items():
                 st["switch_sites"][k2] = st["switch_sites"].get(k2, 0) + v2
